@@ -36,7 +36,7 @@ def _fn(name):
 
 @st.composite
 def cases(draw, name, max_n=40):
-    n = draw(st.integers(1, max_n))
+    n = draw(st.integers(0, 1)) if draw(st.integers(0, 11)) == 0 else draw(st.integers(1, max_n))
     rows = draw(gs.streams(n, n, with_ts=False, grid=(0.25, 2) if name in PATS else None))
     pmiss = draw(st.sampled_from((0, 0.2, 0.5)))
     miss = st.sampled_from((False,) * 10 if pmiss == 0 else (True,) * 2 + (False,) * 8 if pmiss == 0.2 else (True, False))
@@ -79,6 +79,16 @@ def run_case(case) -> Result:
         labels.append("has_missing")
     full = _candles(case)
     viol = []
+    if n == 0:  # nothing to look at: the default position must not raise either (and there is nothing to report)
+        labels.append("empty_list")
+        try:
+            got = f([], **kw)
+            if got:
+                viol.append(Violation("reports-on-an-empty-list", "empty", f"{name}({kw}) on no candles: {got!r}", name))
+        except Exception as exc:
+            v = raises(exc, name)
+            v.detail = "on an empty candle list: " + v.detail
+            viol.append(v)
     for i in range(n):
         try:
             at_pos = f(full, index=i, **kw)
@@ -91,6 +101,9 @@ def run_case(case) -> Result:
             break
         if not same(at_pos, on_cut):
             viol.append(Violation("depends-on-later-candles", "index-vs-truncated", f"{name}({kw}) at index {i} of {n}: {at_pos!r} but on candles[:{i + 1}] {on_cut!r}", name))
+            break
+        if name in NOARG and not same(f(full[i]), at_pos):  # documented: a single Candle may be given instead of a list
+            viol.append(Violation("single-candle-form-differs", "candle-vs-list", f"{name}(candle {i}) = {f(full[i])!r} but {name}(candles, index={i}) = {at_pos!r}", name))
             break
         if not same(at_pos, at_neg):
             viol.append(Violation("negative-index-differs", "index-vs-negative", f"{name}({kw}) index {i}: {at_pos!r} but index {i - n}: {at_neg!r}", name))
